@@ -112,6 +112,9 @@ var c05Names = []string{
 	"big.sec.test.",      // 17 TXT answer above the server's 1232-byte UDP ceiling, below 4096
 }
 
+// c05UnnamedType: a question type the DNS library has no mnemonic for (private use range).
+const c05UnnamedType = 65280
+
 // c05AliasTarget: alias name index -> index of the name its chain ends at.
 var c05AliasTarget = map[int]int{1: 0, 2: 7, 16: 0}
 
@@ -186,9 +189,30 @@ func genC05(r *kit.RNG) *C05Scenario {
 			sc.Ops = append(sc.Ops, op)
 		}
 	}
+	if r.Chance(0.15) {
+		// unservable-type recipe: a denial (or a failure) that covers a whole subtree gets cached,
+		// then a name under it is asked with a type the server has no mnemonic for: such a
+		// packet is dropped, whatever is cached over the name
+		lead, under := 4, kit.Pick(r, []int{5, 4, 5})
+		if r.Chance(0.35) {
+			lead, under = 9, 9
+		}
+		cd := lead == 9 && r.Chance(0.6)
+		sc.Ops = append(sc.Ops, C05Op{GapMs: 5, Client: r.Intn(3), Name: lead, Type: dns.TypeA, CD: cd, EDNS: true, Size: 1232, DO: r.Chance(0.5)})
+		for j, k := 0, r.Range(1, 3); j < k; j++ {
+			op := C05Op{GapMs: kit.Pick(r, []int{5, 50, 400, 2000}), Client: r.Intn(3), Name: under, Type: c05UnnamedType, CD: cd, AD: r.Chance(0.3)}
+			if r.Chance(0.7) {
+				op.EDNS, op.Size, op.DO = true, kit.Pick(r, []uint16{512, 1232, 4096}), r.Chance(0.5)
+			}
+			sc.Ops = append(sc.Ops, op)
+		}
+	}
 	n := r.Range(6, 30)
 	for i := 0; i < n; i++ {
 		op := C05Op{GapMs: kit.Pick(r, []int{1, 5, 50, 400, 2000, 7000, 31000, 70000}), Client: r.Intn(3), Name: kit.Pick(r, pool), Type: kit.Pick(r, types)}
+		if r.Chance(0.03) {
+			op.Type = c05UnnamedType
+		}
 		if r.Chance(0.2) {
 			op.Name = r.Intn(len(c05Names))
 		}
